@@ -61,7 +61,6 @@ impl<K, V> View for BTreeMap<K, V> {
 }
 
 /// btree_map::Iter (what `.iter()` returns): a Vec snapshot of the entries
-pub type Iter<'a, K, V> = Vec<(&'a K, &'a V)>;
 
 /// btree_map::IntoIter
 pub type IntoIter<K, V> = Vec<(K, V)>;
@@ -133,7 +132,7 @@ impl<K, V> BTreeMap<K, V> {
     }
 
     #[verifier::external_body]
-    pub fn iter<'a>(&'a self) -> (r: Iter<'a, K, V>)
+    pub fn iter<'a>(&'a self) -> (r: Vec<(&'a K, &'a V)>)
         ensures
             deref_pairs(r@) == vx_entries(self@),
             entries_of(vx_entries(self@), self@),
